@@ -59,6 +59,10 @@ def step (d : D) (op impl : String) : D × DrvOut :=
             | none => "FAIL unparsable implementation answer: " ++ (impl.take 60).toString
         (d, { model, spec })
     | _, _ => (d, { model := "bad-op", spec := "FAIL unparsable value or missing reset" })
+  | ["apiread", _, _] =>
+    -- reads of the configuration through the API work on a copy: the running configuration is untouched
+    (d, { model := "changed=0",
+          spec := if impl == "changed=1" then "FAIL an API read (GET) changed the running configuration" else "ok" })
   | ["reject", _, slot, vS] =>
     match d.ty, parseVAll vS with
     | some ty, some v =>
